@@ -111,6 +111,7 @@ func run(c *fw.Ctx) {
 	c.Cases("pw", c.N(4800, 64000), func(i int, r *fw.Rand) { runPW(c, i, r) })
 	c.Cases("tlsabort", c.N(48, 600), func(i int, r *fw.Rand) { runTLSAbort(c, i, r) })
 	c.Cases("startfail", c.N(64, 960), func(i int, r *fw.Rand) { runStartFail(c, i, r) })
+	c.Cases("hubburst", c.N(48, 720), func(i int, r *fw.Rand) { runHubBurst(c, i, r) })
 	c.Cases("scan0", c.N(32, 480), func(i int, r *fw.Rand) { runScan0(c, i, r) })
 	if bg != nil {
 		c.Begin(bgID)
